@@ -22,13 +22,18 @@ fn main() {
         "#![allow(dead_code)]\n#[path = \"{v}/harness/src/lib.rs\"]\nmod api;\n#[path = \"{v}/harness/src/c20_core.rs\"]\nmod c20_core;\nfn main() {{\n    c20_core::run(api::Args::parse());\n}}\n",
         v = env.verif
     );
-    let bin = match small_util::build_helper(&env, "c20x-ws", "c20x", &deps, &main_rs) {
+    // built by `--prebuild 1`; a normal run only checks the source stamp (and rebuilds, under a
+    // file lock, when it is stale)
+    let bin = match small_util::build_helper(&env, "c20x-ws", "c20x", &deps, &main_rs, &["lib.rs", "c20_core.rs"]) {
         Ok(b) => b,
         Err(e) => {
             eprintln!("c20: {e}");
             std::process::exit(3);
         }
     };
+    if std::env::args().any(|a| a == "--prebuild") {
+        return;
+    }
     let st = std::process::Command::new(bin).args(std::env::args().skip(1)).status().expect("run c20x");
     std::process::exit(st.code().unwrap_or(4));
 }
